@@ -6,14 +6,24 @@
 package main
 
 import (
+	"context"
 	"encoding/json"
+	"errors"
 	"fmt"
 	"reflect"
 	"sort"
 	"strings"
+	"time"
 
+	"github.com/notaryproject/notation-go"
+	"github.com/notaryproject/notation-go/verifier"
 	"github.com/notaryproject/notation-go/verifier/trustpolicy"
+	"github.com/notaryproject/notation-go/zzverif/lib/forge"
 	"github.com/notaryproject/notation-go/zzverif/lib/hx"
+	"github.com/notaryproject/notation-go/zzverif/lib/mocks"
+	"github.com/notaryproject/notation-go/zzverif/lib/pki"
+	"github.com/opencontainers/go-digest"
+	ocispec "github.com/opencontainers/image-spec/specs-go/v1"
 )
 
 const dg = "sha256:9f86d081884c7d659a2feaa0c55ad015a3bf4f1b2b0b822cd15d6c15b0f00a08"
@@ -543,6 +553,177 @@ func enumBlob(r *hx.Run) {
 	}, nil)
 }
 
+// ---- end to end: the statement the verifier APPLIES is the one the reference selects ----
+//
+// Every statement lists its own store "ca:<statement name>"; the signer's root is in every store, so the
+// store the verifier loads identifies the statement it applied. A refused reference must surface as
+// ErrorNoApplicableTrustPolicy without any trust-store access.
+
+type e2eWorld struct {
+	chain *pki.Chain
+	desc  ocispec.Descriptor
+	envs  [2][]byte
+}
+
+func newE2E() *e2eWorld {
+	w := &e2eWorld{chain: pki.NewChain(pki.ChainOpts{Len: 2, Prefix: "c08"})}
+	d, _ := digest.Parse(dg)
+	w.desc = ocispec.Descriptor{MediaType: "application/vnd.oci.image.manifest.v1+json", Digest: d, Size: 7}
+	for f := 0; f < 2; f++ {
+		w.envs[f] = forge.Build(forge.Spec{Format: forge.Formats[f], Chain: w.chain.X509(), Key: w.chain.Leaf().Key, Payload: forge.PayloadFor(w.desc), SigningTime: time.Now().Add(-time.Hour)})
+	}
+	return w
+}
+
+func (w *e2eWorld) store(names ...string) *mocks.TrustStore {
+	ts := mocks.NewTrustStore()
+	for _, n := range names {
+		ts.Put("ca", n, w.chain.Root().Cert)
+	}
+	return ts
+}
+
+func enumE2E(r *hx.Run) {
+	w := newE2E()
+	scopes := scopesAll[:5]
+	refs := refsFor(scopes)
+	var specs []docSpec
+	var rec func(i int, a []int, maxk int)
+	rec = func(i int, a []int, maxk int) {
+		if i == len(scopes) {
+			for _, wc := range []bool{false, true} {
+				if maxk == 0 && !wc {
+					continue
+				}
+				specs = append(specs, docSpec{Assign: append([]int(nil), a...), Wildcard: wc})
+			}
+			return
+		}
+		for k := 0; k <= maxk+1 && k <= 2; k++ {
+			nm := maxk
+			if k > maxk {
+				nm = k
+			}
+			rec(i+1, append(a, k), nm)
+		}
+	}
+	rec(0, nil, 0)
+	r.Extra["e2e_documents"] = len(specs)
+	ctx := context.Background()
+	r.Parallel(len(specs), func(i int) {
+		sp := specs[i]
+		doc, owner := buildDoc(scopes, sp)
+		// reverse order for every other document: order must not matter end to end either
+		if i%2 == 1 {
+			for a, b := 0, len(doc.TrustPolicies)-1; a < b; a, b = a+1, b-1 {
+				doc.TrustPolicies[a], doc.TrustPolicies[b] = doc.TrustPolicies[b], doc.TrustPolicies[a]
+			}
+		}
+		for j := range doc.TrustPolicies {
+			doc.TrustPolicies[j].TrustStores = []string{"ca:" + doc.TrustPolicies[j].Name} // no tsa store here
+			doc.TrustPolicies[j].SignatureVerification = trustpolicy.SignatureVerification{VerificationLevel: "strict"}
+			doc.TrustPolicies[j].TrustedIdentities = []string{"*"}
+		}
+		ts := w.store("s1", "s2", "s3", "w")
+		v, err := verifier.NewVerifierWithOptions(ts, verifier.VerifierOptions{OCITrustPolicy: doc, RevocationCodeSigningValidator: mocks.AllOK()})
+		if err != nil {
+			r.Outcome("e2e:generator-document-rejected(skipped; C09 judges)")
+			return
+		}
+		for k, rf := range refs {
+			want := ""
+			if rf.Valid {
+				if n, ok := owner[rf.Path]; ok {
+					want = n
+				} else if sp.Wildcard {
+					want = "w"
+				}
+			}
+			ts.Calls = nil
+			f := (i + k) % 2
+			r.Eval(1)
+			_, verr := v.Verify(ctx, w.desc, w.envs[f], notation.VerifierVerifyOptions{ArtifactReference: rf.Ref, SignatureMediaType: forge.Formats[f]})
+			c := ociCase{"oci-e2e", scopes, sp, rf}
+			var loaded []string
+			for _, cl := range ts.Calls {
+				loaded = append(loaded, cl.Name)
+			}
+			if want == "" {
+				var np notation.ErrorNoApplicableTrustPolicy
+				switch {
+				case verr == nil:
+					r.Violation("oci-e2e/verified-instead-of-refused:"+rf.Label, fmt.Sprintf("reference %q has no applicable statement but verification succeeded (stores loaded %v)", rf.Ref, loaded), c)
+				case len(loaded) > 0:
+					r.Violation("oci-e2e/statement-applied-instead-of-refused:"+rf.Label, fmt.Sprintf("reference %q has no applicable statement but stores %v were loaded", rf.Ref, loaded), c)
+				case !errors.As(verr, &np):
+					r.Violation("oci-e2e/refusal-is-not-a-no-applicable-policy-error:"+rf.Label, fmt.Sprintf("reference %q: %T %v", rf.Ref, verr, verr), c)
+				default:
+					r.Outcome("e2e:refused")
+				}
+				continue
+			}
+			switch {
+			case len(loaded) != 1 || loaded[0] != want:
+				r.Violation("oci-e2e/wrong-statement-applied:"+rf.Label, fmt.Sprintf("reference %q must be verified under statement %q, stores loaded: %v (err=%v)", rf.Ref, want, loaded, verr), c)
+			case verr != nil:
+				r.Violation("oci-e2e/verification-failed-under-right-statement:"+rf.Label, fmt.Sprintf("reference %q statement %q: %v", rf.Ref, want, verr), c)
+			default:
+				r.Outcome("e2e:verified-under-selected-statement")
+				r.Nontrivial(fmt.Sprintf("e2e|%v|%v|%s", sp.Assign, sp.Wildcard, rf.Label))
+			}
+		}
+	}, nil)
+	// blob: named statement / global statement through verifier.VerifyBlob
+	names := []string{"a", "A", "ab", "b"}
+	for g := -1; g < len(names); g++ {
+		doc := &trustpolicy.BlobDocument{Version: "1.0"}
+		for j, n := range names {
+			doc.TrustPolicies = append(doc.TrustPolicies, trustpolicy.BlobTrustPolicy{Name: n, SignatureVerification: trustpolicy.SignatureVerification{VerificationLevel: "strict"}, TrustStores: []string{"ca:st" + fmt.Sprint(j)}, TrustedIdentities: []string{"*"}, GlobalPolicy: j == g})
+		}
+		ts := w.store("st0", "st1", "st2", "st3")
+		v, err := verifier.NewVerifierWithOptions(ts, verifier.VerifierOptions{BlobTrustPolicy: doc, RevocationCodeSigningValidator: mocks.AllOK()})
+		if err != nil {
+			r.Infra("blob e2e verifier: %v", err)
+			continue
+		}
+		for _, q := range []string{"a", "A", "ab", "b", "aa", " a", "", " "} {
+			want := -1
+			for j, n := range names {
+				if n == q {
+					want = j
+				}
+			}
+			if q == "" {
+				want = g
+			}
+			ts.Calls = nil
+			r.Eval(1)
+			content := []byte("c08 blob")
+			gen := func(alg digest.Algorithm) (ocispec.Descriptor, error) {
+				return ocispec.Descriptor{MediaType: "application/octet-stream", Digest: alg.FromBytes(content), Size: int64(len(content))}, nil
+			}
+			_, verr := v.VerifyBlob(ctx, gen, w.envs[0], notation.BlobVerifierVerifyOptions{SignatureMediaType: forge.JWS, TrustPolicyName: q})
+			var loaded []string
+			for _, cl := range ts.Calls {
+				loaded = append(loaded, cl.Name)
+			}
+			c := blobCase{"blob-e2e", names, g, q, nil}
+			var np notation.ErrorNoApplicableTrustPolicy
+			switch {
+			case want < 0 && (len(loaded) > 0 || !errors.As(verr, &np)):
+				r.Violation("blob-e2e/statement-applied-instead-of-refused", fmt.Sprintf("request %q global=%d: stores %v err=%v", q, g, loaded, verr), c)
+			case want >= 0 && (len(loaded) != 1 || loaded[0] != "st"+fmt.Sprint(want)):
+				r.Violation("blob-e2e/wrong-statement-applied", fmt.Sprintf("request %q global=%d must apply statement %q, stores loaded %v (err=%v)", q, g, names[want], loaded, verr), c)
+			case want >= 0:
+				r.Outcome("e2e-blob:applied-selected-statement")
+				r.Nontrivial(fmt.Sprintf("e2eblob|%d|%q", g, q))
+			default:
+				r.Outcome("e2e-blob:refused")
+			}
+		}
+	}
+}
+
 func replay(r *hx.Run) {
 	var probe struct {
 		Kind string `json:"kind"`
@@ -575,6 +756,9 @@ func replay(r *hx.Run) {
 		} else {
 			fmt.Println("replay: holds")
 		}
+	case "oci-e2e", "blob-e2e":
+		fmt.Println("replay: end-to-end cases are re-run by the full end-to-end pass (about a second)")
+		enumE2E(r)
 	default:
 		fmt.Println("replay: blob cases are re-run by the full check (sub-second)")
 		enumBlob(r)
@@ -592,6 +776,7 @@ func main() {
 	enumOCI(r)
 	enumHistories(r)
 	enumBlob(r)
+	enumE2E(r)
 	_ = sort.Strings
 	r.Finish()
 }
